@@ -671,9 +671,52 @@ func c12Cyclic() []*Case {
 	return out
 }
 
+// c12BigCase: one object with far more properties than any small internal table
+// (1200 in a literal, then every 7th deleted and 50 added), observed like any other.
+func c12BigCase() *Case {
+	g := &c12Gen{s: zeroSrc{}, heap: map[int]map[string]C12Val{}, vars: map[string]int{}, arrays: map[string][]int{}}
+	g.prelude()
+	m := map[string]C12Val{}
+	var parts []string
+	for i := 0; i < 1200; i++ {
+		k := fmt.Sprintf("q%04d", (i*37)%1200)
+		m[k] = C12Val{Num: 10000 + i}
+		parts = append(parts, fmt.Sprintf("%s: %d", k, 10000+i))
+	}
+	id := g.newObj(m)
+	g.setVar("big", id, "{"+strings.Join(parts, ", ")+"}")
+	g.step = 1
+	g.observe("big-literal")
+	for i := 0; i < 1200; i += 7 {
+		k := fmt.Sprintf("q%04d", i)
+		g.add(fmt.Sprintf("%s(big, \"%s\");", FnDelete, k))
+		delete(g.heap[id], k)
+	}
+	for i := 0; i < 50; i++ {
+		k := fmt.Sprintf("z%03d", i)
+		g.add(fmt.Sprintf("big.%s = %d;", k, 20000+i))
+		g.heap[id][k] = C12Val{Num: 20000 + i}
+	}
+	g.step = 2
+	g.observe("big-delete-add")
+	g.add(fmt.Sprintf("%s \"@DONE\";", KwPrint))
+	prog := strings.Join(g.lines, "\n") + "\n"
+	ex := &C12Expect{Blocks: g.blocks, Ops: []string{"big-literal", "big-delete-add"}}
+	cs := &Case{Prop: "C12", Kind: "ops", Sig: "big-object-1200", Program: prog, Aux: &Aux{C12: ex}}
+	base := scriptCfg(prog, "")
+	base.Budget = 80000000
+	rev := base
+	rev.Orders = []int{-1, -1, -1, -1, -1, -1, -1, -1}
+	rot := base
+	rot.Orders = []int{5, 17, 400, 3, 9, 250, 1, 77}
+	cs.Runs = []Run{{Role: "identity", Cfg: base}, {Role: "reverse", Cfg: rev}, {Role: "rotations", Cfg: rot}}
+	return cs
+}
+
 func c12Systematic(tier string) []*Case {
 	var out []*Case
 	out = append(out, c12Cyclic()...)
+	out = append(out, c12BigCase())
 	for seedv := 0; seedv < 60; seedv++ {
 		src := &lcgSrc{x: uint64(seedv)*7919 + 17}
 		cs := generated(src, func(s Src) *Case { return c12Case(s, "quick", 4) })
